@@ -162,6 +162,17 @@ def check_embeddings(run, s2, o, entry):
         if mo.get("prove") != "ok":
             run.violation(f"the prover refused / failed on a valid witness ({['larger filler', 'seeded filler: ' + variant, 'filler with spare capacity'][fi]}): {str(mo.get('prove'))[:120]}",
                           {"kind": "session", "spec": strip(s2), "member": old_n + fi})
+    # the seeded filler is an honest, seeded, non-aggregated member: wherever it sits (embedded batches and their copies in the other modes), a
+    # recovering mode that answers Ok must return its blinding vector at its position
+    small_mask = s2["members"][old_n + 1]["commit"][0]["r"]
+    for xi, (vs_, vo_) in enumerate(zip(s2["verifies"], o["verifies"])):
+        if xi < n0 or vo_["result"] != "ok" or vs_.get("mode") == "VerifyOnly":
+            continue
+        for q, vmq in enumerate(vs_.get("vmembers", [])):
+            if vmq.get("proof") == old_n + 1 and vmq.get("stmt", {}).get("seed") and q < len(vo_.get("masks") or []) and vo_["masks"][q] != small_mask:
+                run.violation(f"the mask recovered for an honest seeded member ({variant}) at position {q} of a batch of {len(vs_['vmembers'])} (mode {vs_['mode']}) is not its blinding vector",
+                              {"kind": "session", "spec": strip(s2), "verify": xi, "position": q})
+                return
     for (ei, vi, pos, cname) in emb:
         src, e = o["verifies"][vi], o["verifies"][ei]
         if src["result"].startswith(("unavailable", "panic")) or e["result"].startswith("unavailable"):
